@@ -331,6 +331,46 @@ def applyNames (reset : Bool) (state : List String) (modelNames : List String) (
     List String × List String :=
   freshMany (if reset then modelNames else modelNames ++ state) "val" k
 
+/-! ## 5d. Version converter: names of the values an adapter creates -/
+
+/-- `_VersionConverter` per-run state -/
+structure VCState where
+  used : List String := []
+  counter : Nat := 0
+  modified : Bool := false
+  deriving DecidableEq, Repr
+
+/-- `_name_new_values` for one value: `while True: name = f"val_{counter}"; counter += 1; if name not in used: break` -/
+def vcNameLoop : Nat → VCState → String × VCState
+  | 0, st => ("val_" ++ toString st.counter, { st with counter := st.counter + 1 })
+  | fuel + 1, st =>
+    let name := "val_" ++ toString st.counter
+    let st1 := { st with counter := st.counter + 1 }
+    if st.used.contains name then vcNameLoop fuel st1 else (name, { st1 with used := name :: st1.used })
+
+def vcNameMany : VCState → Nat → List String × VCState
+  | st, 0 => ([], st)
+  | st, k + 1 =>
+    let r := vcNameLoop (st.used.length + 1) st
+    let rs := vcNameMany r.2 k
+    (r.1 :: rs.1, rs.2)
+
+/-- `_VersionConverter.visit_model`: the model's value names are ADDED to `used`, the adapters fire and
+`k` new values are named, `_modified` is set when a node was replaced; NameFixPass runs iff `_modified`.
+Returns (new names, NameFixPass ran) and the state left on the converter object. -/
+def vcVisit (st : VCState) (modelNames : List String) (k : Nat) : (List String × Bool) × VCState :=
+  let st1 := { st with used := modelNames ++ st.used }
+  let r := vcNameMany st1 k
+  let st2 := { r.2 with modified := r.2.modified || decide (0 < k) }
+  ((r.1, st2.modified), st2)
+
+/-- `_ConvertVersionPassRequiresInline.call` -> `convert_version(model, target)`: the code as it is builds a
+NEW `_VersionConverter` for every call (`reuse = false`); `reuse = true` is a pass that keeps one converter
+object for all its calls (seeded change C14-8). -/
+def convertPassCall (reuse : Bool) (st : VCState) (modelNames : List String) (k : Nat) :
+    (List String × Bool) × VCState :=
+  if reuse then vcVisit st modelNames k else ((vcVisit {} modelNames k).1, st)
+
 /-! ## 6. Globals, decoration, protos, eager calls -/
 
 /-- body of a script: one expression over the input `x` and global names -/
